@@ -2,6 +2,7 @@
 use crate::Args;
 use ractor_cluster::node::node_session::verif_probe::{verif_session_step, VerifFrame};
 use ractor_cluster::node::verif_probe as np;
+use ractor_cluster::verif_remote_actor_probe as rp;
 
 fn hex(b: &[u8]) -> String {
     b.iter().map(|x| format!("{x:02x}")).collect()
@@ -73,4 +74,17 @@ pub fn session(a: &Args) {
     println!("tcp_sent={}", obs.tcp_sent);
     println!("group_members={}", obs.group_members);
     println!("children={}", obs.children);
+    println!("target_pid={}", obs.target_pid);
+    println!("target_log={}", obs.target_log.join("+"));
+    println!("session_frames={}", obs.session_frames.join("+"));
+}
+
+/// remote_proxy pid= counter= tags=<..> closed=<flags> cursor=<n|none> kind=<..> reply_tag= timeout_ms= session_dead=0|1
+pub fn proxy(a: &Args) {
+    let tags: Vec<u64> = a.list_u128("tags").iter().map(|x| *x as u64).collect();
+    let closed: Vec<bool> = a.list_u128("closed").iter().map(|x| *x != 0).collect();
+    let pending: Vec<(u64, bool)> = tags.iter().enumerate().map(|(i, t)| (*t, closed.get(i).copied().unwrap_or(false))).collect();
+    let rt = tokio::runtime::Builder::new_current_thread().enable_time().build().unwrap();
+    let out = rt.block_on(rp::proxy_step(a.u64("pid"), a.u64("counter"), &pending, a.opt_u128("cursor").map(|x| x as u64), a.str("kind"), a.u64("reply_tag"), a.u64("timeout_ms"), a.u64("session_dead") == 1));
+    println!("out={}", out.replace('=', ":"));
 }
